@@ -1,8 +1,10 @@
 CONSTANT Tier = "quick"
+CONSTANT EAFP = FALSE
 INIT Init
 NEXT Next
 INVARIANT ImplRefinesMeaning
 INVARIANT DispatchSane
+INVARIANT OutcomeRefinesMeaning
 INVARIANT ForeignSane
 INVARIANT Emit
 CHECK_DEADLOCK FALSE
